@@ -45,8 +45,13 @@ def variants(a, I):
         yield 'tuple-all', (tuple(A),)
         yield 'list-all', (list(A),)
         yield 'decl-all', (Declaration(*A),)
+        # one-shot iterators at the top and one level down
+        yield 'iter-all', (iter(list(A)),)
+        yield 'generator-all', ((x for x in A),)
+        yield 'list-of-iter', ([iter(list(A))],)
     if len(A) >= 2:
         yield 'tail-tuple', (A[0], tuple(A[1:]))
+        yield 'tail-reversed-iter', (A[0], reversed(list(reversed(A[1:]))))
         yield 'mixed', ((A[0],), [A[1]]) + tuple(A[2:])
         yield 'decl-head', (Declaration(*A[:2]),) + tuple(A[2:])
         yield 'decl-tail', (A[0], Declaration(A[1], *A[2:]))
@@ -249,6 +254,24 @@ def eval_users(case):
         return ('alsoProvides-order', da, direct, x, after, before)
     if not I[x].providedBy(c):
         return ('alsoProvides-providedBy', da, direct, x)
+    # --- a class specification among the direct declarations (legal: any
+    # specification can be declared): it is part of what is directly provided
+    # and survives later alsoProvides / noLongerProvides
+    if 'J' not in direct and 'J' not in da and x != 'J':
+        Other = type('Other', (), {})
+        classImplements(Other, I['J'])
+        d = A()
+        directlyProvides(d, *([I[n] for n in direct] + [implementedBy(Other)]))
+        want = {n for n in direct if not cls_implies(n)} | {'J'}
+        if set(nm(directlyProvidedBy(d))) != want:
+            return ('directlyProvidedBy-with-class-spec', da, direct, nm(directlyProvidedBy(d)))
+        alsoProvides(d, I[x])
+        if not I['J'].providedBy(d) or 'J' not in nm(directlyProvidedBy(d)):
+            return ('alsoProvides-drops-class-spec', da, direct, x)
+        if not cls_implies(x):
+            noLongerProvides(d, I[x])
+            if not I['J'].providedBy(d):
+                return ('noLongerProvides-drops-class-spec', da, direct, x)
     return None
 
 
